@@ -41,7 +41,7 @@ MapKinds == {"any", "mss", "msi"}
 Objects == {[k |-> "struct", sh |-> sn, ptr |-> p] : sn \in ShapeNames, p \in BOOLEAN}
            \cup {[k |-> "map", g |-> g] : g \in MapKinds}
 MapVal(g, n) == CASE n = "X" -> (IF g = "mss" THEN VS(<<120>>) ELSE VI(8)) [] n = "Y" -> (IF g = "mss" THEN VS(<<121>>) ELSE VI(9)) [] OTHER -> Null
-AttrNames == {"X", "Y", "Z", "W", "Q", "Name", "PName", "hidden", "nosuch"} \cap NameSet
+AttrNames == {"X", "Y", "Z", "W", "Q", "Name", "PName", "hidden", "nosuch", "x", "name"} \cap NameSet    \* names are case-sensitive
 
 IsExported(n) == n \notin {"hidden"}
 
